@@ -227,6 +227,10 @@ func (otx olvmTx) Validate(ctx *action.Context, signedTx action.SignedTx) (bool,
 	if tx.TxType != 0 || tx.AccessList != nil {
 		return false, ethtypes.ErrTxTypeNotSupported
 	}
+	// the chain id is a pointer that is compared later
+	if tx.ChainID == nil {
+		return false, ethtypes.ErrInvalidChainId
+	}
 
 	//validate basic signature
 	err = tx.validateSigner(ctx, signedTx)
